@@ -7,19 +7,21 @@ META = {
     "technique": "Coq proof on a list-level model of IndicesSyncer::sync (pack / unpack / sorted insertion / merge / pointer repair, "
                  "all decompositions, deletion sets, process counts and arrival orders) + extracted-model vs MPI differential "
                  "correspondence with the extracted spec as oracle on the implementation's own dumps, PMPI schedule perturbation, ASan build",
-    "text": "Theorems in coq/Properties_C13.v about the model of dune/common/parallel/indicessyncer.hh (coq/C13_Model.v), for every world, "
-            "rank, numberer and EVERY processing order of the incoming messages: after sync the index set is strictly ordered (no pair twice, "
-            "new pairs public and numbered by the numberer), every remote list is ordered and duplicate-free, every entry refers to a pair of "
-            "the re-sorted set and repairLocalIndexPointers resolves it without leaving the set (C13_sorted_valid_monotone, C13_index_set_strict, "
-            "C13_repair_total); nothing known before is lost or altered; what a rank believed about a neighbour is completed there with all "
-            "third-party holders (C13_completion); nothing is invented (C13_no_junk); the whole result is independent of the processing order "
-            "(C13_order_independent); for a consistent world W (pairwise intersection of public copies, as C04_spec) and ANY deletion of copies "
-            "with their remote entries such that each deleted copy is still listed by another rank, sync returns exactly W up to the local "
-            "numbers of the re-added pairs, for every order (C13_restore, full).  The code before fixes 30ae05b/23083bc is the variant c13_asis of "
-            "the same definitions; the *_asis_refuted theorems keep its witnesses.  The model is tied to the code on every run by an MPI harness over "
-            "generated decompositions (owner/overlap/copy, third-party knowledge, forgotten neighbours, P<=4), deletions through "
-            "RemoteIndexListModifier, both numberers (call sequence checked), fixed and arrival order, checked / ASan / NDEBUG builds; the extracted "
-            "spec is the oracle on the implementation's own dumps.",
+    "text": "Theorems in coq/Properties_C13.v about the model of dune/common/parallel/indicessyncer.hh (coq/C13_Model.v), for every world "
+            "(any process count, any neighbour graph incl. newly discovered neighbours), numberer and EVERY arrangement of the incoming "
+            "messages on every rank: the collective sync never blocks; index set strictly ordered, new pairs public and numbered by the numberer "
+            "(call sequence ascending per message); every list ordered, duplicate-free, all references repaired inside the set; nothing lost "
+            "or invented; what a rank believed about a neighbour is completed there with all third-party holders (C13_world_completion); the "
+            "result is independent of the processing order (C13_world_order_independent); for a consistent world W (pairwise intersection of "
+            "public copies, as C04_spec) and ANY deletion of copies with their remote entries such that each deleted copy is still listed by "
+            "another rank, sync returns exactly W up to the local numbers of the re-added pairs (C13_restore / C13_world_restore, full) and a "
+            "second sync is idle; isSynced afterwards; calculateMessageSizes announces what is packed; the iterator-tuple insertion and the "
+            "RemoteIndexListModifier<true> loops are modelled literally and refine the list-level operations.  The variant of the model that "
+            "describes the CURRENT source, the tags, the public flag and the default number are re-read from the source on every run "
+            "(tools/params.d/C13.py).  The code before fixes 30ae05b/23083bc is the variant c13_asis; the *_asis_refuted theorems keep its "
+            "witnesses.  The model is tied to the code on every run by an MPI harness (checked / ASan / NDEBUG builds, split communicators, "
+            "neighbour hints, includeSelf, ignorePublic, two global-index types, hand-grown pairs, second sync); the extracted spec is the oracle "
+            "on the implementation's own dumps.",
     "note": "Trusted: Coq kernel, extraction, OCaml driver, C++ MPI harness, PMPI shim, OpenMPI; MPI point-to-point semantics and "
             "RemoteIndices::rebuild (C04) are modelled (the harness checks the rebuilt state against the pairwise intersection), not verified.",
     "design_ref": "DESIGN.md section 4 C13",
@@ -470,7 +472,12 @@ def build(ctx, san=False, ndebug=False):
     return model, outs[0], (outs[1] if san else None), (outs[-1] if ndebug else None)
 
 
+def params_hook(ctx):
+    V.sh([sys.executable, os.path.join(V.VERIF, "tools", "extract_params.py"), ctx.repo], check=True)
+
+
 def run(ctx):
+    ctx.params_hook = params_hook
     V.coq_stage(ctx)
     model, impl, impl_san, impl_nd = build(ctx, san=True, ndebug=True)
     quick = ctx.quick
@@ -565,7 +572,14 @@ def run(ctx):
             nh += 1
             io_chk[j] = run_impl(ctx, impl, NP, [sub_lines[j]], "hc%d" % j, case_timeout=60)[0]
     # NDEBUG build (assertions off, -O2): every case
-    io_nd = run_impl(ctx, impl_nd, NP, sub_lines, "ndebug", case_timeout=20 if quick else 40, max_bad=6) if impl_nd else [None] * len(sub_lines)
+    # (a tree on which the checked build gave up after max_bad crashes/hangs is already convicted: no further builds are run on it)
+    gave_up = any(x.startswith("NOT-RUN") for x in r_chk)
+    if gave_up:
+        impl_san = None
+    io_nd = run_impl(ctx, impl_nd, NP, sub_lines, "ndebug", case_timeout=20 if quick else 40, max_bad=6) if (impl_nd and not gave_up) \
+        else [None] * len(sub_lines)
+    if gave_up and d_grow:
+        io_nd = run_impl(ctx, impl_nd, NP, sub_lines, "ndebug", case_timeout=20, max_bad=3)
     io = [io_chk.get(j, io_nd[j]) for j in range(len(sub_lines))]
     impl_S = []
     for l in io:
@@ -578,6 +592,7 @@ def run(ctx):
             "new_neighbours_discovered": 0}
     nontrivial = set()
     oi_bad = cnt_bad = 0
+    self_bad = {}
     kinds = []
     for j, i in enumerate(sel):
         c = cases[i]
@@ -595,6 +610,11 @@ def run(ctx):
             dist["restore_pre"][sm[3].get("pre", "?")] = dist["restore_pre"].get(sm[3].get("pre", "?"), 0) + 1
             if sm[2].get("oi") != "1": oi_bad += 1
             if sm[2].get("cnt") != "1": cnt_bad += 1
+            for k in ("tree", "tup", "mod", "seq"):
+                if sm[2].get(k) != "1":
+                    self_bad[k] = self_bad.get(k, 0) + 1
+                    if sum(self_bad.values()) <= 3:
+                        ctx.violation("corr:C13/model-selfcheck:" + k, {"broken": "model self-check %s fails" % k, "case": lines[i], "model": m2[j]}, found_input=False)
             if sm[1] != strip_obs(expD): dist["new_entries"] += 1
             if (c.get("forget") or c.get("grow")) and [len(re.findall(r" \d+:", r)) for r in sm[1].split(" / ")] != [len(re.findall(r" \d+:", r)) for r in expD.split(" / ")]:
                 dist["new_neighbours_discovered"] += 1
@@ -629,7 +649,7 @@ def run(ctx):
                                                     "oracle": "ASan/UBSan build aborts or behaves differently"})
     # ---- NDEBUG build: same observations as the checked build on every case both ran
     nd_n = nd_bad = 0
-    if impl_nd:
+    if impl_nd and not gave_up:
         for j in chk:
             l = io_nd[j]
             if l is None or l.startswith("NOT-RUN"):
@@ -652,7 +672,7 @@ def run(ctx):
         "samples": [lines[i] for i in sel[:2]] + [lines[i] for i in sel[len(sel) // 2: len(sel) // 2 + 2]],
         "distribution": dist, "generated": len(cases),
         "oracle_rejections": nviol, "impl_model_disagreements_accepted_by_oracle": ncorr,
-        "model_order_dependent_cases": oi_bad, "publish_count_mismatch_cases": cnt_bad,
+        "model_order_dependent_cases": oi_bad, "publish_count_mismatch_cases": cnt_bad, "model_selfcheck_failures": self_bad,
         "sanitizer_cases": san_n, "sanitizer_disagreements": san_bad, "ndebug_cases": nd_n, "ndebug_disagreements": nd_bad,
         "numberer_call_sequences_checked": sum(1 for j, i in enumerate(sel) if cases[i]["num"] != 0 and kinds[j] == "ok" and cases[i]["del"] != "m"),
         "audit_defect_probes": defect, "back_to_back_repetitions": b2b_reps, "exhaustive": False,
